@@ -1,6 +1,10 @@
 import RbV.Ref.EditDist
 import RbV.Lemmas.UkkonenEq
+import RbV.Lemmas.EdTextbook
 import RbV.Lemmas.MyersStep
+import RbV.Lemmas.MyersBlock
+import RbV.Lemmas.MyersLongAll
+import RbV.Lemmas.MyersLongBand
 /-!
 # C09 — approximate matchers and distance functions equal the edit-distance definition
 
@@ -27,6 +31,20 @@ open RbV.EditDist
 theorem ed_optimal (w : Nat → Nat → Nat) (p s : List Nat) :
     (∀ ops v, wcost w p s ops = some v → ed w p s ≤ v) ∧ (∃ ops, wcost w p s ops = some (ed w p s)) :=
   ⟨fun ops v h => ed_le_wcost w ops p s v h, ed_attained w p s⟩
+
+/-- base cases of the recursion: against the empty string the distance is the length -/
+theorem ed_base (w : Nat → Nat → Nat) (p s : List Nat) : ed w p [] = p.length ∧ ed w [] s = s.length :=
+  ⟨ed_nil_right w p, ed_nil_left w s⟩
+
+/-- the three-way minimum that defines `ed` is the textbook recursion: a pair of equivalent symbols (cost 0) is
+skipped, a non-equivalent pair costs 1 + the minimum over substitution, insertion, deletion -/
+theorem ed_textbook (eqv : Nat → Nat → Bool) (a b : Nat) (p s : List Nat) :
+    ed (unitW eqv) (a :: p) (b :: s) =
+      if eqv a b then ed (unitW eqv) p s
+      else 1 + min (ed (unitW eqv) p s) (min (ed (unitW eqv) p (b :: s)) (ed (unitW eqv) (a :: p) s)) := by
+  by_cases h : eqv a b
+  · simp only [h, if_true]; exact ed_match _ a b p s (by simp [unitW, h])
+  · simp only [h]; exact ed_mismatch _ a b p s (by simp [unitW, h])
 
 /-- a labelled alignment (Match only over equivalent symbols, Subst only over non-equivalent ones) with `v`
 non-match operations bounds the unit-cost distance -/
@@ -190,7 +208,49 @@ theorem myers_simple_eq (w : Nat) (eqv : Nat → Nat → Bool) (p t : List Nat) 
     RbV.Model.MyersSimple.findAllEnd w eqv p t k = hits (unitW eqv) p t k :=
   RbV.Model.MyersSimple.findAllEnd_eq_hits w eqv p t k hm1 hw
 
+/-- **[C] block step** (`long.rs: advance_block`): if a block's `pv`/`mv` encode the vertical differences of the local
+column `D` (rows `0..n` of the block, `n = bnd+1 ≤ w`), `dist = D n`, and `hin ∈ {−1,0,1}` is the horizontal difference
+at the block's upper edge (`b0 − D 0`), then after `advance_block` (forcing `eq` bit 0 when `hin < 0`, the addition
+trick, shifting `hin` into `ph`/`mh`) the block encodes the next column on its rows, `dist` is the new last entry and
+the returned `hout` is the horizontal difference at the lower edge — i.e. exactly the carry the next block needs. -/
+theorem myers_block_step {w : Nat} (bnd : Nat) (hn : bnd + 1 ≤ w) (D : Nat → Int) (eq : BitVec w)
+    (s : RbV.Model.MyersSimple.St w) (b0 hin : Int) (hh : -1 ≤ hin ∧ hin ≤ 1) (hb : b0 - D 0 = hin)
+    (enc : RbV.Model.MyersLong.EncB (bnd + 1) D s.pv s.mv) (hd : (s.dist : Int) = D (bnd + 1))
+    (hnn : 0 ≤ RbV.Model.MyersLong.nextCB D eq.getLsbD b0 (bnd + 1)) :
+    RbV.Model.MyersLong.EncB (bnd + 1) (RbV.Model.MyersLong.nextCB D eq.getLsbD b0)
+      (RbV.Model.MyersLong.advanceBlock bnd eq hin s).1.pv (RbV.Model.MyersLong.advanceBlock bnd eq hin s).1.mv ∧
+    ((RbV.Model.MyersLong.advanceBlock bnd eq hin s).1.dist : Int) =
+      RbV.Model.MyersLong.nextCB D eq.getLsbD b0 (bnd + 1) ∧
+    (RbV.Model.MyersLong.advanceBlock bnd eq hin s).2 =
+      RbV.Model.MyersLong.nextCB D eq.getLsbD b0 (bnd + 1) - D (bnd + 1) :=
+  RbV.Model.MyersLong.advanceBlock_enc bnd hn D eq s b0 hin hh hb enc hd hnn
+
+/-- **[C] block-based Myers, all blocks active**: for `k ≥ |p|` `States::new` activates every block and
+`States::step` never adds or drops one; the chain of `advance_block` calls with the carry handed from block to block
+(`Model.MyersLong.advanceAll_enc`, built on `myers_block_step`) computes the next Sellers column on all rows.
+(Superseded by `myers_long_eq`; kept because it isolates the carry chain from the band logic.) -/
+theorem myers_long_allblocks (w : Nat) (eqv : Nat → Nat → Bool) (p t : List Nat) (k : Nat)
+    (hw : 1 ≤ w) (hp : 1 ≤ p.length) (hk : p.length ≤ k) :
+    RbV.Model.MyersLong.findAllEnd w eqv p t k = hits (unitW eqv) p t k :=
+  RbV.Model.MyersLong.findAllEnd_eq_hits_allActive w eqv p t k hw hp hk
+
+/-- **[C] block-based Myers, end to end**: the mirror model of `long::Myers<T>::find_all_end` — pattern cut into
+blocks of `w` symbols (last block partial or full), `advance_block` with the carry between blocks, and the band logic
+of `States::{new, add_state, step, known_dist}` (only `max(1, ⌈min(k,m)/w⌉)` blocks at the start; the next block is
+switched on when `last_dist − carry ≤ k` and the next row matches or the carry is negative, initialised as the steepest
+continuation; trailing blocks are switched off while their last row is `≥ k + w`; a distance is known only when all
+blocks are computed) — returns exactly the expected pairs, for **every** word width, pattern length, equivalence
+(ambiguity map, wildcards), text and `k`.
+Invariant (`Model.MyersLong.Band`): the active blocks encode a pseudo-column `P` with `P ≥ C` (the true Sellers
+column) on their rows and `P r = C r` wherever `C r ≤ k`; every row below the active blocks has `C r > k`. -/
+theorem myers_long_eq (w : Nat) (eqv : Nat → Nat → Bool) (p t : List Nat) (k : Nat)
+    (hw : 1 ≤ w) (hp : 1 ≤ p.length) :
+    RbV.Model.MyersLong.findAllEnd w eqv p t k = hits (unitW eqv) p t k :=
+  RbV.Model.MyersLong.findAllEnd_eq_hits w eqv p t k hw hp
+
 -- non-vacuity: concrete instances
+example : RbV.Model.MyersLong.findAllEnd 2 eqSym [1, 2, 1, 1, 3] [1, 2, 1, 3, 1, 1, 3, 2] 5 =
+    hits (unitW eqSym) [1, 2, 1, 1, 3] [1, 2, 1, 3, 1, 1, 3, 2] 5 := by decide
 example : RbV.Model.MyersSimple.findAllEnd 8 eqSym [1, 2, 1] [1, 2, 1, 3, 1, 1] 1 = [(1, 1), (2, 0), (3, 1), (4, 1), (5, 1)] := by decide
 example : RbV.Model.Ukkonen.findAllEnd (unitW eqSym) [1, 2, 1] [1, 2, 1, 3, 1, 1] 1 = [(1, 1), (2, 0), (3, 1), (4, 1), (5, 1)] := by decide
 example : ed (unitW eqSym) [1, 2, 3] [1, 3] = 1 := by rw [← edFast_eq]; decide
